@@ -2,6 +2,7 @@ import TensorModel.Run
 import TensorModel.Proofs.ColMajor
 import TensorModel.Props.C01
 import TensorModel.Props.C05
+import TensorModel.Props.C11
 import TensorModel.Proofs.CoreEq
 /-!
   C16 — a column-major tensor is the array with the same logical contents.
@@ -117,6 +118,55 @@ theorem mixed_order_arith_coordinatewise (st : St) (op : String) (a b : Dense)
   unfold sameOrd
   simpa using hord
 
+/-- **Comparison of column-major operands is coordinate-wise** (finding F36, repaired: the result is given the operands'
+    data order). For two contiguous column-major tensors of one proper n-d shape, `StdEng.<Cmp>(a, b)` returns a fresh
+    column-major tensor `r`, and for every coordinate `c` of the shape `At(c)` addresses in `r`, `a` and `b` the cell of
+    the same rank — the column-major rank of `c` — and `r`'s cell there is `op` of `a`'s and `b`'s cells there:
+    `r.At(c) = op (a.At(c)) (b.At(c))`. Before the repair `r` was row-major and this failed for every `c` whose
+    row-major and column-major ranks differ. -/
+theorem colMajor_cmp_coordinatewise (st : St) (op : String) (tc : List String) (a b : Dense)
+    (hshape : b.shape = a.shape) (hdt : a.dt = b.dt) (htc : a.dt ∈ tc)
+    (hca : a.ap.o.col = true) (hcb : b.ap.o.col = true)
+    (hsa : a.strides = calcStridesCol a.shape) (hsb : b.strides = calcStridesCol a.shape)
+    (hv : isVector a.shape = false) (hs : isScalarEquiv a.shape = false)
+    (hia : a.requiresIterator = false) (hib : b.requiresIterator = false)
+    (hlen : a.win.len = b.win.len) (hcap : a.win.len ≤ b.win.cap) (hsz : (a.win.len : Int) = totalSize a.shape)
+    (hA : InBuf st a.win.buf a.win.off a.win.len) (hB : InBuf st b.win.buf b.win.off a.win.len)
+    (c : List Int) (hc : inBox a.shape c = true) :
+    ∃ out r x y, engCmpVV st op tc a b {} = .ok out ∧ out.ret = .fresh r ∧ r.dt = "b" ∧ r.ap.o.col = true ∧
+      r.ap.shape = a.shape ∧
+      ltoi r.ap.shape r.ap.strides c = .ok (colRank a.shape c) ∧
+      ltoi a.shape a.strides c = .ok (colRank a.shape c) ∧
+      ltoi b.shape b.strides c = .ok (colRank a.shape c) ∧
+      cell st a.win.buf (a.win.off + (colRank a.shape c).toNat) = some x ∧
+      cell st b.win.buf (b.win.off + (colRank a.shape c).toNat) = some y ∧
+      cell out.st r.win.buf (r.win.off + (colRank a.shape c).toNat) = some (.app2 op x y) := by
+  have hne : a.shape ≠ [] := by
+    intro h; rw [h] at hs; simp [isScalarEquiv] at hs
+  have hdl : denseLen a.shape = a.win.len := by
+    have : a.shape.isEmpty = false := by
+      cases hsh : a.shape with
+      | nil => exact absurd hsh hne
+      | cons _ _ => rfl
+    rw [C11.denseLen_def, this]
+    simp only [Bool.false_eq_true, if_false]
+    omega
+  obtain ⟨out, r, h, hret, _, hrdt, hrs, hrst, hrc, hrw, _, _, _, hval, _⟩ :=
+    C11.engCmpVV_default st op tc a b (by rw [hshape]; exact shapeEq_self _) hdt htc hia hib
+      (by unfold sameOrd; simp [hca, hcb]) hlen hcap (by omega) hA hB
+  have hk := C01.colRank_bounds a.shape c hc
+  have hkl : (colRank a.shape c).toNat < a.win.len := by
+    have : prod a.shape = (a.win.len : Int) := by rw [hsz]; rfl
+    omega
+  obtain ⟨x, y, hx, hy, hxy⟩ := hval _ hkl
+  have hat := colMajor_at a.shape c hv hs hc
+  refine ⟨out, r, x, y, h, hret, hrdt, by rw [hrc, hca], hrs, ?_, ?_, ?_, hx, hy, ?_⟩
+  · rw [hrs, hrst, hca]; exact hat
+  · rw [hsa]; exact hat
+  · rw [hshape, hsb]; exact hat
+  · have hoff : r.win.off = 0 := by rw [hrw]
+    rw [hoff, Nat.zero_add]; exact hxy
+
 /-- `tensor.Copy` between tensors of different data order copies element by element along both
     iterators (i.e. by coordinate), never the raw storage (the `fix:` of finding F26). -/
 theorem copy_mixed_order_by_coordinate (st : St) (dst src : Dense) (hdt : dst.dt = src.dt)
@@ -136,5 +186,19 @@ example : isVector [2, 3] = false ∧ isScalarEquiv [2, 3] = false ∧ inBox [2,
     colRank [2, 3] [1, 2] = 5 ∧ rowRank [2, 3] [1, 2] = 5 ∧ colRank [2, 3] [0, 1] = 2 ∧ rowRank [2, 3] [0, 1] = 1 := by decide
 
 example : FlatIt.offsets { shape := [2, 3], strides := prefixProds 1 [2, 3], fin := true } = [0, 2, 4, 1, 3, 5] := by decide
+
+namespace ExCmp
+def st : St := { heap := #[#[.src 0 0, .src 0 1, .src 0 2, .src 0 3, .src 0 4, .src 0 5],
+                           #[.src 1 0, .src 1 1, .src 1 2, .src 1 3, .src 1 4, .src 1 5]] }
+/-- two column-major (2,3) tensors (the layout of the former witness of F36) -/
+def ta : Dense := { ap := { shape := [2, 3], strides := [1, 2], o := { col := true } }, win := ⟨0, 0, 6, 6⟩, dt := "u32" }
+def tb : Dense := { ap := { shape := [2, 3], strides := [1, 2], o := { col := true } }, win := ⟨1, 0, 6, 6⟩, dt := "u32" }
+example := colMajor_cmp_coordinatewise st "lt" ordTypes ta tb rfl rfl (by decide) rfl rfl (by decide) (by decide)
+  (by decide) (by decide) (by decide) (by decide) rfl (by decide) (by decide) ⟨_, rfl, by decide⟩ ⟨_, rfl, by decide⟩
+  [1, 1] (by decide)
+/-- concretely: coordinate (1,1) is cell 3 of all three tensors, and the result's cell 3 is `lt a[3] b[3]` -/
+example : ∃ out r, engCmpVV st "lt" ordTypes ta tb {} = .ok out ∧ out.ret = .fresh r ∧ r.ap.strides = [1, 2] ∧
+    cell out.st 2 3 = some (.app2 "lt" (.src 0 3) (.src 1 3)) := ⟨_, _, rfl, rfl, by decide, rfl⟩
+end ExCmp
 
 end TM.C16
